@@ -60,16 +60,24 @@ pub struct Sc {
     pub stalls: Vec<(bool, Pos)>,
     /// 0: stalled first; 1: one healthy-but-unread stream of each kind first; 2: a healthy delivered stream between the stalled ones
     pub order: u8,
+    /// how the session ends: false = the peer's close capsule; true = the application drops every handle it holds (connection
+    /// clones, accepted streams, pending calls) and the peer must see the connection closed
+    pub app_drops: bool,
+    /// the endpoint under test is configured through the library's default builder path (its own transport parameters), and
+    /// "unread data up to the flow-control window" means the real window: the peer writes until it blocks
+    pub defaults: bool,
 }
 
 impl Sc {
     pub fn to_json(&self) -> Value {
-        json!({"role_server": self.role_server, "order": self.order, "stalls": self.stalls.iter().map(|(b, p)| json!([b, p.name()])).collect::<Vec<_>>()})
+        json!({"role_server": self.role_server, "order": self.order, "app_drops": self.app_drops, "defaults": self.defaults, "stalls": self.stalls.iter().map(|(b, p)| json!([b, p.name()])).collect::<Vec<_>>()})
     }
     pub fn from_json(v: &Value) -> Sc {
         Sc {
             role_server: v["role_server"].as_bool().unwrap(),
             order: v["order"].as_u64().unwrap() as u8,
+            app_drops: v["app_drops"].as_bool().unwrap_or(false),
+            defaults: v["defaults"].as_bool().unwrap_or(false),
             stalls: v["stalls"].as_array().unwrap().iter().map(|x| (x[0].as_bool().unwrap(), Pos::parse(x[1].as_str().unwrap()))).collect(),
         }
     }
@@ -107,7 +115,7 @@ struct Seen {
 pub async fn run(sc: Sc) -> Result<(String, Vec<&'static str>), String> {
     let world = World::new(23);
     // small stream window so that "one window of unread data" is 1 KiB; keep-alive so that only a real stall ends the run
-    let lib = Tweak { stream_window: Some(1024), ..Default::default() };
+    let lib = if sc.defaults { Tweak { default_paths: true, ..Default::default() } } else { Tweak { stream_window: Some(1024), ..Default::default() } };
     let peer = Tweak { keep_alive_ms: Some(2_000), ..Default::default() };
     let (conn, raw, mut rs, _keep): (wtransport::Connection, Raw, RawSession, Box<dyn std::any::Any>) = if sc.role_server {
         let r = raw_vs_server(&world, &lib, &peer).await?;
@@ -124,6 +132,7 @@ pub async fn run(sc: Sc) -> Result<(String, Vec<&'static str>), String> {
     let (c1, s1, h1) = (conn.clone(), seen.clone(), hold_ids.clone());
     let t_uni = tokio::spawn(async move {
         let mut parked = vec![];
+        let mut readers = tokio::task::JoinSet::new();
         loop {
             match c1.accept_uni().await {
                 Ok(mut r) => {
@@ -134,7 +143,7 @@ pub async fn run(sc: Sc) -> Result<(String, Vec<&'static str>), String> {
                         continue;
                     }
                     let s2 = s1.clone();
-                    tokio::spawn(async move {
+                    readers.spawn(async move {
                         let mut out = vec![];
                         let mut buf = [0u8; 256];
                         while let Ok(Some(n)) = r.read(&mut buf).await {
@@ -156,6 +165,7 @@ pub async fn run(sc: Sc) -> Result<(String, Vec<&'static str>), String> {
     let (c2, s2, h2) = (conn.clone(), seen.clone(), hold_ids.clone());
     let t_bi = tokio::spawn(async move {
         let mut parked = vec![];
+        let mut readers = tokio::task::JoinSet::new();
         loop {
             match c2.accept_bi().await {
                 Ok((s, mut r)) => {
@@ -166,7 +176,7 @@ pub async fn run(sc: Sc) -> Result<(String, Vec<&'static str>), String> {
                         continue;
                     }
                     let s3 = s2.clone();
-                    tokio::spawn(async move {
+                    readers.spawn(async move {
                         let _keep_send = s;
                         let mut out = vec![];
                         let mut buf = [0u8; 256];
@@ -223,7 +233,11 @@ pub async fn run(sc: Sc) -> Result<(String, Vec<&'static str>), String> {
         if *pos == Pos::AcceptedUnread {
             hold_ids.lock().unwrap().push(sid_of(&s));
         }
-        let b = stall_bytes(*bidi, *pos, sid);
+        let mut b = stall_bytes(*bidi, *pos, sid);
+        if sc.defaults && matches!(pos, Pos::PreambleWindow | Pos::AcceptedUnread) {
+            // more than any per-stream window the library would choose: the write blocks when the window is full
+            b.extend(std::iter::repeat(0x77).take(3_000_000));
+        }
         if !b.is_empty() {
             // never block the harness on flow control: a window of data is written from a detached task
             let t = tokio::spawn(async move {
@@ -279,6 +293,27 @@ pub async fn run(sc: Sc) -> Result<(String, Vec<&'static str>), String> {
             return Err(format!("connection ended by itself: {e:?}"));
         }
     }
+    if sc.app_drops {
+        // the application lets go of everything: pending accept calls, accepted streams and their readers, every handle
+        let (au, ab) = {
+            let g = seen.lock().unwrap();
+            (g.accepted_uni, g.accepted_bi)
+        };
+        t_uni.abort();
+        t_bi.abort();
+        t_dg.abort();
+        let _ = t_uni.await;
+        let _ = t_bi.await;
+        let _ = t_dg.await;
+        drop(conn);
+        drop(_keep);
+        let seen_close = raw.close_seen(10_000).await;
+        if !matches!(seen_close, CloseSeen::App(..) | CloseSeen::Transport(..) | CloseSeen::Reset) {
+            failed.push("close");
+        }
+        let obs = format!("incomplete_uni={n_incomplete_uni} incomplete_bi={n_incomplete_bi} accepted_uni={au} accepted_bi={ab} app_drops peer_sees={seen_close:?} failed={failed:?}");
+        return Ok((obs, failed));
+    }
     // clean close
     rs.req_send.write_all(&rc::close_capsule_frame(0, b"")).await.map_err(|e| format!("raw close capsule: {e:?}"))?;
     settle_ms(5_000).await;
@@ -327,7 +362,10 @@ pub fn scenarios(tier: Tier) -> Vec<Sc> {
                         if !thorough && order != 0 && k != 1 && k != 4 {
                             continue;
                         }
-                        out.push(Sc { role_server: role, stalls: vec![(bidi, pos); k], order });
+                        out.push(Sc { role_server: role, stalls: vec![(bidi, pos); k], order, app_drops: false, defaults: false });
+                        if order == 0 && (thorough || k <= 2) {
+                            out.push(Sc { role_server: role, stalls: vec![(bidi, pos); k], order, app_drops: true, defaults: false });
+                        }
                     }
                 }
             }
@@ -341,7 +379,7 @@ pub fn scenarios(tier: Tier) -> Vec<Sc> {
         ];
         for m in mixes {
             for order in 0..3u8 {
-                out.push(Sc { role_server: role, stalls: m.clone(), order });
+                out.push(Sc { role_server: role, stalls: m.clone(), order, app_drops: false, defaults: false });
             }
         }
         // many stalled streams (the quantifier is "every k >= 1": any fixed pool of pending-header slots, permits or
@@ -352,12 +390,24 @@ pub fn scenarios(tier: Tier) -> Vec<Sc> {
         for &k in big {
             for &pos in big_pos {
                 for bidi in [false, true] {
-                    out.push(Sc { role_server: role, stalls: vec![(bidi, pos); k], order: 0 });
+                    out.push(Sc { role_server: role, stalls: vec![(bidi, pos); k], order: 0, app_drops: false, defaults: false });
                 }
                 if pos.incomplete() {
-                    out.push(Sc { role_server: role, stalls: (0..k).map(|i| (i % 2 == 0, pos)).collect(), order: 0 });
-                    out.push(Sc { role_server: role, stalls: (0..k).map(|i| (i % 2 == 1, pos)).collect(), order: 2 });
+                    out.push(Sc { role_server: role, stalls: (0..k).map(|i| (i % 2 == 0, pos)).collect(), order: 0, app_drops: false, defaults: false });
+                    out.push(Sc { role_server: role, stalls: (0..k).map(|i| (i % 2 == 1, pos)).collect(), order: 2, app_drops: false, defaults: false });
                 }
+            }
+        }
+        // the library's own transport parameters (default builder paths): streams whose whole window is unread
+        for k in if thorough { vec![1usize, 7, 8, 9, 12, 20] } else { vec![9usize] } {
+            for pos in [Pos::AcceptedUnread, Pos::PreambleWindow] {
+                if pos == Pos::PreambleWindow && k > 9 {
+                    continue;
+                }
+                for bidi in [false, true] {
+                    out.push(Sc { role_server: role, stalls: vec![(bidi, pos); k], order: 0, app_drops: false, defaults: true });
+                }
+                out.push(Sc { role_server: role, stalls: (0..k).map(|i| (i % 2 == 0, pos)).collect(), order: 0, app_drops: false, defaults: true });
             }
         }
         if tier >= Tier::Deep {
@@ -366,16 +416,16 @@ pub fn scenarios(tier: Tier) -> Vec<Sc> {
             for k in 1..=90usize {
                 for pos in [Pos::NoByte, Pos::TypeHalf, Pos::TypeOnly, Pos::SidHalf] {
                     for bidi in [false, true] {
-                        out.push(Sc { role_server: role, stalls: vec![(bidi, pos); k], order: 0 });
+                        out.push(Sc { role_server: role, stalls: vec![(bidi, pos); k], order: 0, app_drops: false, defaults: false });
                     }
-                    out.push(Sc { role_server: role, stalls: (0..k).map(|i| (i % 2 == 0, pos)).collect(), order: (k % 3) as u8 });
+                    out.push(Sc { role_server: role, stalls: (0..k).map(|i| (i % 2 == 0, pos)).collect(), order: (k % 3) as u8, app_drops: false, defaults: false });
                 }
             }
             for p1 in ALL_POS {
                 for p2 in ALL_POS {
                     for p3 in ALL_POS {
-                        out.push(Sc { role_server: role, stalls: vec![(true, p1), (false, p2), (true, p3)], order: 1 });
-                        out.push(Sc { role_server: role, stalls: vec![(false, p1), (true, p2), (false, p3)], order: 0 });
+                        out.push(Sc { role_server: role, stalls: vec![(true, p1), (false, p2), (true, p3)], order: 1, app_drops: false, defaults: false });
+                        out.push(Sc { role_server: role, stalls: vec![(false, p1), (true, p2), (false, p3)], order: 0, app_drops: false, defaults: false });
                     }
                 }
             }
@@ -383,8 +433,8 @@ pub fn scenarios(tier: Tier) -> Vec<Sc> {
         if thorough {
             for p1 in ALL_POS {
                 for p2 in ALL_POS {
-                    out.push(Sc { role_server: role, stalls: vec![(false, p1), (true, p2)], order: 0 });
-                    out.push(Sc { role_server: role, stalls: vec![(false, p1), (false, p2), (false, p1)], order: 2 });
+                    out.push(Sc { role_server: role, stalls: vec![(false, p1), (true, p2)], order: 0, app_drops: false, defaults: false });
+                    out.push(Sc { role_server: role, stalls: vec![(false, p1), (false, p2), (false, p1)], order: 2, app_drops: false, defaults: false });
                 }
             }
         }
@@ -400,7 +450,7 @@ pub fn run_check(args: &Args) -> i32 {
     let rep = Report::new(
         args,
         "fault_enumeration",
-        "fault = k in 1..5(6) and k in {17, 40} (thorough {8, 16, 17, 32, 64, 90}; same kind and alternating kinds) stalled peer-opened streams of kind uni/bidi at one of 7 stall positions (no byte; half type; type only; half session id; complete preamble then silence; preamble + one flow-control window unread; accepted by the application and not read) x opening order (stalled first / healthy-unread streams first / healthy streams in between) x role, plus mixed kinds and positions; after the faults the peer opens one healthy uni and one healthy bidi stream, sends a datagram and finally a clean close capsule while the application keeps accepting; horizon 10 s virtual with keep-alive. All scenarios distinct and non-trivial (>= 1 stalled stream)",
+        "fault = k in 1..5(6) and k in {17, 40} (thorough {8, 16, 17, 32, 64, 90}; same kind and alternating kinds) stalled peer-opened streams of kind uni/bidi at one of 7 stall positions (no byte; half type; type only; half session id; complete preamble then silence; preamble + one flow-control window unread; accepted by the application and not read) x opening order (stalled first / healthy-unread streams first / healthy streams in between) x role, plus 1..20 streams whose whole per-stream window (the library's default transport parameters, default builder paths) is unread, plus mixed kinds and positions; after the faults the peer opens one healthy uni and one healthy bidi stream, sends a datagram and finally a clean close capsule while the application keeps accepting (variant: instead of the peer's capsule the application drops every handle and the peer must see the connection closed); horizon 10 s virtual with keep-alive. All scenarios distinct and non-trivial (>= 1 stalled stream)",
     );
     rep.assume("quiescence at the virtual horizon means 'never': nothing is in flight and only keep-alives remain");
     let scs = scenarios(args.tier);
